@@ -229,6 +229,23 @@ pixman_line_fixed_edge_init (pixman_edge_t *            e,
                       bot->y + y_off_fixed);
 }
 
+/* Add an offset to a coordinate without wrapping around: the sum of a
+ * trapezoid coordinate near the end of the 16.16 range and the drawing
+ * offset saturates instead.
+ */
+static pixman_fixed_t
+add_offset_saturate (pixman_fixed_t v, pixman_fixed_t offset)
+{
+    pixman_fixed_48_16_t sum = (pixman_fixed_48_16_t)v + offset;
+
+    if (sum > pixman_max_fixed_48_16)
+	return (pixman_fixed_t)pixman_max_fixed_48_16;
+    if (sum < pixman_min_fixed_48_16)
+	return (pixman_fixed_t)pixman_min_fixed_48_16;
+
+    return (pixman_fixed_t)sum;
+}
+
 PIXMAN_EXPORT void
 pixman_add_traps (pixman_image_t *     image,
                   int16_t              x_off,
@@ -254,12 +271,12 @@ pixman_add_traps (pixman_image_t *     image,
 
     while (ntrap--)
     {
-	t = traps->top.y + y_off_fixed;
+	t = add_offset_saturate (traps->top.y, y_off_fixed);
 	if (t < 0)
 	    t = 0;
 	t = pixman_sample_ceil_y (t, bpp);
 
-	b = traps->bot.y + y_off_fixed;
+	b = add_offset_saturate (traps->bot.y, y_off_fixed);
 	if (pixman_fixed_to_int (b) >= height)
 	    b = pixman_int_to_fixed (height) - 1;
 	b = pixman_sample_floor_y (b, bpp);
@@ -367,12 +384,12 @@ pixman_rasterize_trapezoid (pixman_image_t *          image,
 
     y_off_fixed = pixman_int_to_fixed (y_off);
 
-    t = trap->top + y_off_fixed;
+    t = add_offset_saturate (trap->top, y_off_fixed);
     if (t < 0)
 	t = 0;
     t = pixman_sample_ceil_y (t, bpp);
 
-    b = trap->bottom + y_off_fixed;
+    b = add_offset_saturate (trap->bottom, y_off_fixed);
     if (pixman_fixed_to_int (b) >= height)
 	b = pixman_int_to_fixed (height) - 1;
     b = pixman_sample_floor_y (b, bpp);
